@@ -43,6 +43,8 @@ func (fs flagSpec) String() string {
 	}
 	if fs.warnings > 0 {
 		p = append(p, fmt.Sprintf("warnings%d", fs.warnings))
+	} else if fs.warnings < 0 {
+		p = append(p, "warnflag")
 	}
 	if fs.beta {
 		p = append(p, "beta")
@@ -81,9 +83,16 @@ func legalFlagSpecs(k *kindSpec, v primitive.ProtocolVersion) []flagSpec {
 			wa = []int{0, 1, 2}
 		}
 	}
+	if !k.response {
+		// a request may carry the WARNING header flag (any version): the codec then neither writes nor reads warnings
+		wa = []int{0, -1}
+	}
 	for _, tr := range []bool{false, true} {
 		for _, p := range pl {
 			for _, w := range wa {
+				if w < 0 && p == 1 {
+					continue
+				}
 				out = append(out, flagSpec{tracing: tr, payload: p, warnings: w, comp: "none"})
 			}
 		}
@@ -108,6 +117,9 @@ func randomFlagSpec(c *chooser, k *kindSpec, v primitive.ProtocolVersion) flagSp
 		if k.response && c.val(3) == 0 {
 			fs.warnings = 1 + c.val(2)
 		}
+	}
+	if !k.response && c.val(8) == 0 {
+		fs.warnings = -1
 	}
 	if v == v5 && c.val(12) == 0 {
 		fs.beta = true
@@ -159,6 +171,9 @@ func buildFrame(c *chooser, v primitive.ProtocolVersion, streamId int16, msg mes
 			}
 			b.CustomPayload[key] = c.optBytes()
 		}
+	}
+	if fs.warnings < 0 {
+		h.Flags |= primitive.HeaderFlagWarning
 	}
 	if fs.warnings > 0 {
 		h.Flags |= primitive.HeaderFlagWarning
@@ -273,6 +288,13 @@ func nestedTypes(v primitive.ProtocolVersion) []datatype.DataType {
 	}
 	out = append(out, deep)
 	return out
+}
+
+func resultMetadataIdFor(v primitive.ProtocolVersion) []byte {
+	if hasResultMetadataId(v) {
+		return []byte{4, 5}
+	}
+	return nil
 }
 
 func columnsOf(types []datatype.DataType, sameTable bool) []*message.ColumnMetadata {
@@ -407,6 +429,22 @@ func sweepCases(rnd *rand.Rand, thorough bool, emit func(gc genCase)) {
 		for _, same := range []bool{true, false} {
 			cols := columnsOf(prims, same)
 			add(v, fmt.Sprintf("alltypes same=%v", same), "none", plainFrame(v, 5, &message.RowsResult{Metadata: &message.RowsMetadata{ColumnCount: int32(len(cols)), Columns: cols}, Data: message.RowSet{make(message.Row, len(cols))}}))
+		}
+		// columns that share the table name but not the keyspace, the keyspace but not the table, or differ only in the
+		// last column: the global-table-spec decision must look at both names of every column
+		for variant := 0; variant < 3; variant++ {
+			tc := columnsOf([]datatype.DataType{datatype.Int, datatype.Varchar, datatype.Int}, true)
+			switch variant {
+			case 0:
+				tc[1].Keyspace, tc[2].Keyspace = "ks1", "ks2"
+			case 1:
+				tc[1].Table = "t1"
+			default:
+				tc[2].Keyspace = "other"
+			}
+			add(v, fmt.Sprintf("table-spec variant=%d", variant), "none", plainFrame(v, 5, &message.RowsResult{Metadata: &message.RowsMetadata{ColumnCount: 3, Columns: tc}, Data: message.RowSet{make(message.Row, 3)}}))
+			add(v, fmt.Sprintf("table-spec variant=%d", variant), "none", plainFrame(v, 5, &message.PreparedResult{PreparedQueryId: []byte{1}, ResultMetadataId: resultMetadataIdFor(v),
+				VariablesMetadata: &message.VariablesMetadata{Columns: tc}, ResultMetadata: &message.RowsMetadata{ColumnCount: 3, Columns: tc}}))
 		}
 		nested := nestedTypes(v)
 		cols := columnsOf(nested, true)
